@@ -99,10 +99,10 @@ PROPS = {
         not_decided="AES paths (dependency crates), password->key derivation end to end, unlock_with_password, decrypt_object_if_needed, the trailer /Encrypt clause of write_xref_stream",
     ),
     "C13": dict(
-        verus=["warray", "cmaprange"],
+        verus=["warray", "cmaprange", "cidgid"],
         standins=["embedded-font"],
-        level_text="the /W run-grouping block of generate_width_array: expanding the emitted array (ISO 32000-1 9.7.4.3) gives back exactly the code->width map it was built from; the rest of C13 is not decided",
-        not_decided="ToUnicode text, CIDToGIDMap, glyph presence, the widths returned by get_glyph_widths, anything an independent extractor would check",
+        level_text="the /W run-grouping block of generate_width_array: expanding the emitted array (ISO 32000-1 9.7.4.3) gives back exactly the code->width map it was built from; the fill block of generate_cid_to_gid_map: bytes 2c, 2c+1 of the stream are the glyph of code point c (high byte first) for every mapped c up to the highest one and 0 otherwise (ISO 32000-1 Table 117); the bfrange destination arithmetic of the ToUnicode reader (cmaprange); the rest of C13 is not decided deductively",
+        not_decided="ToUnicode text generation (format!/String code: stand-in embedded-font only), the choice of max_unicode in generate_cid_to_gid_map (iterator adapters; the block takes max_unicode <= 0xFFFF as a precondition), glyph presence, the widths returned by get_glyph_widths, anything an independent extractor would check",
     ),
     "C16": dict(
         verus=["rotate", "pagerange", "inherit"],
